@@ -1,12 +1,36 @@
 //! C07 "decoders are total": parent process of a shard.
 //!
 //! `xcdr c07 --seed S --shard I --nshards N --cases TOTAL --tier quick|thorough --out FILE [--replay FILE]`
+//! (options: `--budget-s`, `--alloc-k 1024`, `--alloc-c 1048576`, `--hang-cpu-s 5`, `--stack-mib 8`,
+//! `--shrink-budget 250`, `--chunk`, `--probe-budget-ms`; `C07_DEBUG=1` prints a time line to stderr).
 //!
-//! The parent re-executes itself as child processes (`--child`), each running a contiguous block of
-//! case indices. A child announces every decoder invocation (case index, decoder, input class and the
-//! input bytes) in a file *before* making it and streams findings / summaries as JSON lines. When a
-//! child dies (allocation cap abort, stack overflow, killed for > 5 s CPU on one input) the parent
-//! attributes the death to the announced input, records it and restarts a child at the next index.
+//! Decoders: RtpsMessageRead::try_from (+ walking every decoded submessage), the four discovery
+//! `from_bytes`, type-lookup request / reply (`deserialize_top_level_type` + `create_sample`, the way
+//! discovery_methods.rs does it) and `deserialize_top_level_type` for generated types.
+//!
+//! Process model. The parent re-executes itself (`current_exe() c07 --child --from A --to B ...`); a
+//! child runs a contiguous range of case indices. Cases are grouped in blocks of 256 (one decoder,
+//! one generated type per block) and handed to a *decoder thread* in batches of 32; that thread writes
+//! an announce record (case index, decoder, input class, the input bytes, checksums) into a file with
+//! one `pwrite` right before every decoder call. Findings / summaries stream back as JSON lines.
+//! * A child that dies (stack overflow -> SIGABRT, killed for > 5 s user CPU on one input) is
+//!   attributed by the parent to the announced input; a hang is confirmed by a second run in a fresh
+//!   process; the batch is run again without the fatal case; aborting inputs are minimised by
+//!   truncation with probe children (time bounded).
+//! * An allocation request above the hard cap (1 GiB single / 3 GiB live) is never attempted: the
+//!   decoder thread is parked for good, its call stack recorded, and a fresh thread continues
+//!   (signature `abort|<decoder>|alloc_cap|<site>`): such events are frequent on the unchanged tree
+//!   and a process restart costs about half a second of DWARF parsing each. Outside park mode the
+//!   allocator writes a marker with a raw write(2) and aborts the process (the parent understands
+//!   that too).
+//!
+//! Oracle per input: Ok/Err are fine; a panic whose innermost non-runtime frame is in dust-dds is a
+//! violation (`panic|<decoder>|<frame>|<normalised message>`), in harness code inconclusive;
+//! cumulative bytes requested during the call must stay <= k*len + c (+ twice what the block's type
+//! needs for an empty input) else `alloc|<decoder>|<site of the dominating request>`; child death ->
+//! `abort|<decoder>|signal N|<input class>`; CPU overrun -> `hang|<decoder>|<input class>`.
+//! Frames: the profile has line-tables-only debug info, i.e. unqualified function names; the module
+//! path is rebuilt from the source file (`/repo/dds/src/a/b.rs` + `f` -> `dust_dds::a::b::f`).
 pub mod bt;
 pub mod child;
 pub mod decoders;
@@ -649,7 +673,7 @@ pub fn main(args: &vcore::Args) -> i32 {
         shard,
         k: args.u64("alloc-k", 1024),
         c: args.u64("alloc-c", 1 << 20),
-        shrink_budget: args.u64("shrink-budget", 400),
+        shrink_budget: args.u64("shrink-budget", 250),
         stack_mib: args.u64("stack-mib", 8),
         hang_cpu_s: args.u64("hang-cpu-s", 5) as f64,
         wall_case_s: args.u64("wall-case-s", 60) as f64,
@@ -672,16 +696,12 @@ pub fn main(args: &vcore::Args) -> i32 {
     }
 
     let mut next = 0u64;
+    let mut dead: Vec<u64> = Vec::new();
     while next < per {
         if Instant::now() > p.deadline {
             p.report.stat("budget_stopped", 1);
+            // (fewer cases than planned is not a harness failure: the runner's min_evaluations decides)
             p.report.stat("cases_not_run", (per - next) as i128);
-            if next * 2 < per {
-                p.report.inconclusive(format!(
-                    "wall-clock budget of {} s used up after {} of {} cases",
-                    budget_s, next, per
-                ));
-            }
             break;
         }
         let from = next;
@@ -689,8 +709,16 @@ pub fn main(args: &vcore::Args) -> i32 {
         let _ = std::fs::remove_file(p.path("ann"));
         // the announce file must exist before the watchdog opens it
         let _ = std::fs::write(p.path("ann"), [0u8; child::ANN_HDR]);
+        let skip: Vec<String> = dead.iter().filter(|d| **d >= from && **d < to).map(|d| d.to_string()).collect();
         let end = p.run_child(
-            &["--from".to_string(), from.to_string(), "--to".to_string(), to.to_string()],
+            &[
+                "--from".to_string(),
+                from.to_string(),
+                "--to".to_string(),
+                to.to_string(),
+                "--skip".to_string(),
+                if skip.is_empty() { "none".to_string() } else { skip.join(",") },
+            ],
             true,
         );
         if end.killed.is_none() && end.signal.is_none() && end.code == Some(0) {
@@ -714,10 +742,33 @@ pub fn main(args: &vcore::Args) -> i32 {
                         "child died in harness code ({}) for case {} (signal {:?}, code {:?}, killed {:?})",
                         a.class, a.idx, end.signal, end.code, end.killed
                     ));
+                    if a.class == "setup" {
+                        let nb = (a.idx / child::BLOCK + 1) * child::BLOCK;
+                        p.report.stat("cases_not_run", (nb.min(per) - a.idx) as i128);
+                        next = nb;
+                    } else {
+                        // input generation of this case: skip it, run its batch again
+                        dead.push(a.idx);
+                        p.report.stat("cases_not_run", 1);
+                        next = from.max(a.idx - a.idx % child::BATCH);
+                    }
                 } else {
                     p.on_death(&end, &a);
+                    dead.push(a.idx);
+                    next = match a.flags {
+                        // died in the main decoding pass of a batch: the earlier cases of that batch
+                        // were decoded but not yet evaluated -> run the batch again without this case
+                        0 => from.max(a.idx - a.idx % child::BATCH),
+                        // died while probing the type of a block: give the block up
+                        2 => {
+                            let nb = (a.idx / child::BLOCK + 1) * child::BLOCK;
+                            p.report.stat("cases_not_run", (nb.min(per) - a.idx) as i128);
+                            nb
+                        }
+                        // died on a shrink candidate: everything before is evaluated
+                        _ => a.idx + 1,
+                    };
                 }
-                next = a.idx + 1;
             }
             _ => {
                 p.report.stat("children_died", 1);
